@@ -107,6 +107,25 @@ def body_listing(name, depth1, check=True):
             if g.status_class != "2xx" or g.body != (b"xz" if res[1] == "z.ics" else b"xa"):
                 return (False, "member-href-not-served")
     ok = len(got) == len(want) and set(x for x in got if x is not None) == want and None not in got
+    if ok and not depth1:
+        # the hrefs of a PROPPATCH answer and of the 404 entry PROPFIND gives for a missing resource address the
+        # request's own resource as well
+        el = Wd.ET.Element("{DAV:}propertyupdate")
+        Wd.ET.SubElement(Wd.ET.SubElement(Wd.ET.SubElement(el, "{DAV:}set"), "{DAV:}prop"), "{DAV:}displayname").text = "n"
+        pp = mweb.call(app, "PROPPATCH", mweb.CAL + "/" + name, xml=el, content_type="text/xml", prefix=prefix, wsgi=wsgi)
+        pm = mweb.call(app, "PROPFIND", mweb.CAL + "/gone-" + name, headers=[("Depth", "0")],
+                       xml=mweb.propfind_body("{DAV:}getetag"), prefix=prefix, wsgi=wsgi)
+        for (r_, target) in ((pp, ("member", name)), (pm, None)):
+            if r_.kind not in ("multistatus", "single"):
+                continue  # answered without an href (e.g. a plain 404)
+            for st in r_.statuses:
+                pi = deref(mweb.emitted_href(st), prefix)
+                if pi is None:
+                    return (False, "answer-href")
+                if target is not None and _names_of(app, pi) != target:
+                    return (False, "answer-href")
+                if target is None and pi.rstrip("/") != mweb.CAL + "/gone-" + name:
+                    return (False, "answer-href")
     if ok and depth1:
         # the member hrefs of a sync-collection answer are built by other code (sync.py): same obligation
         # (calendar-query / multiget hrefs: C11 `report`, C17)
